@@ -40,10 +40,14 @@ inductive VStep (C : Crypto) (L : Loc) : View → View → Prop where
       (hver : v.isClient = true → v.skeVerified = true) (hpk : v.peerPub = some pk)
       (hcr : v.clientRandom = some cr) (hd : C.derive L.pub pk cr sr ems tr = some k) :
       VStep C L v { v with keys := some k, evs := .keys L.pub pk cr sr ems tr k :: v.evs }
-  | connect (v : View) (k : Keys) (tr : Bytes) (hk : v.keys = some k) :
-      VStep C L v { v with conn := .connected, connKeys := some k, evs := .finished k tr :: v.evs }
-  | sent (v : View) (k : Keys) (tr : Bytes) (hk : v.keys = some k) :
-      VStep C L v { v with evs := .sentFinished k tr :: v.evs }
+  /-- `Connected` is published only with keys and only when the verify_data that arrived equals the value
+  computed from those keys' master secret, the *peer's* label and the current transcript -/
+  | connect (v : View) (k : Keys) (tr body : Bytes) (hk : v.keys = some k)
+      (hvd : body = C.vd k.ms (!v.isClient) tr) :
+      VStep C L v { v with conn := .connected, connKeys := some k, evs := .finished k tr body :: v.evs }
+  /-- the own Finished carries the verify_data for the own label -/
+  | sent (v : View) (k : Keys) (tr body : Bytes) (label : Bool) (hk : v.keys = some k) (hvd : body = C.vd k.ms label tr) :
+      VStep C L v { v with evs := .sentFinished k tr body :: v.evs }
 
 /-- reflexive-transitive closure -/
 inductive VSteps (C : Crypto) (L : Loc) : View → View → Prop where
@@ -133,21 +137,29 @@ theorem handleClientKeyExchange_vstep (C : Crypto) (L : Loc) (e : Ep) (b : Bytes
             (by simpa [view] using hk) (by simp [view, hs]) rfl (by simpa [view] using h2) h4
           simpa [view, ok, h2, h3] using this
 
-theorem handleFinishedServer_vstep (C : Crypto) (L : Loc) (e : Ep) (b raw : Bytes) :
+theorem finishedBad_false {C : Crypto} {c : Ctx} {body : Bytes} {l : Bool} {k : Keys} (hk : c.keys = some k)
+    (h : ¬ finishedBad C c body l = true) : body = C.vd k.ms l c.transcript := by
+  simpa [finishedBad, hk] using h
+
+theorem handleFinishedServer_vstep (C : Crypto) (L : Loc) (e : Ep) (b raw : Bytes) (hs : e.isClient = false) :
     VSteps C L (view e) (view (handleFinishedServer C e b raw).ep) := by
   unfold handleFinishedServer
   split
   · exact .one (.conn _ .failed (by decide))
-  · dsimp only
+  · rename_i hbad
+    dsimp only
     split
     · rename_i k hk
-      have h1 := VStep.sent (C := C) (L := L) (view e) k (e.ctx.transcript ++ raw) (by simpa [view] using hk)
-      have h2 := VStep.connect (C := C) (L := L) { view e with evs := .sentFinished k (e.ctx.transcript ++ raw) :: (view e).evs } k e.ctx.transcript (by simpa [view] using hk)
+      have hvd := finishedBad_false hk hbad
+      have h1 := VStep.sent (C := C) (L := L) (view e) k (e.ctx.transcript ++ raw) _ false (by simpa [view] using hk) rfl
+      have h2 := VStep.connect (C := C) (L := L)
+        { view e with evs := .sentFinished k (e.ctx.transcript ++ raw) (C.vd k.ms false (e.ctx.transcript ++ raw)) :: (view e).evs }
+        k e.ctx.transcript b (by simpa [view] using hk) (by simpa [view, hs] using hvd)
       exact (VSteps.one h1).step (by simpa [view, ok, connect] using h2)
     · have := VStep.conn (C := C) (L := L) (view e) .failed (by decide)
       exact .one (by simpa [view] using this)
 
-theorem handleFinishedClient_vstep (C : Crypto) (L : Loc) (e : Ep) (b : Bytes) :
+theorem handleFinishedClient_vstep (C : Crypto) (L : Loc) (e : Ep) (b : Bytes) (hc : e.isClient = true) :
     VSteps C L (view e) (view (handleFinishedClient C e b).ep) := by
   unfold handleFinishedClient
   split
@@ -155,14 +167,20 @@ theorem handleFinishedClient_vstep (C : Crypto) (L : Loc) (e : Ep) (b : Bytes) :
   · rename_i k hk
     split
     · exact .one (.conn _ .failed (by decide))
-    · have := VStep.connect (C := C) (L := L) (view e) k e.ctx.transcript (by simpa [view] using hk)
+    · rename_i hne
+      have hvd : b = C.vd k.ms false e.ctx.transcript := by simpa using hne
+      have := VStep.connect (C := C) (L := L) (view e) k e.ctx.transcript b (by simpa [view] using hk)
+        (by simpa [view, hc] using hvd)
       exact .one (by simpa [view, ok, connect] using this)
 
 theorem handleHvr_vstep (C : Crypto) (L : Loc) (e : Ep) (b : Bytes) :
     VSteps C L (view e) (view (handleHvr C L e b).ep) := by
   unfold handleHvr
   split
-  · exact VSteps.of_eq (by simp [view, ok, hsRecord])
+  · dsimp only
+    split
+    · exact VSteps.of_eq (by simp [view, hsRecord])
+    · exact VSteps.of_eq (by simp [view, ok, hsRecord])
   · exact .refl _
 
 theorem handleServerHello_vstep (C : Crypto) (L : Loc) (e : Ep) (b : Bytes) :
@@ -214,8 +232,8 @@ theorem handleServerHelloDone_vstep (C : Crypto) (L : Loc) (e : Ep) :
         have s1 := VStep.keys (C := C) (L := L) (view e) pk cr sr _ e.ctx.ems k
           (by simpa [view] using hk) (by intro hc; simp [view] at hc ⊢; simpa [hc] using hver)
           (by simpa [view] using h1) (by simpa [view] using h2) h4
-        have s2 := VStep.sent (C := C) (L := L) _ k (emitMsg e.ctx dtlsHtClientKeyExchange L.ckeBody false).2.transcript
-          (show ({ view e with keys := some k, evs := .keys L.pub pk cr sr e.ctx.ems (emitMsg e.ctx dtlsHtClientKeyExchange L.ckeBody false).2.transcript k :: (view e).evs } : View).keys = some k from rfl)
+        have s2 := VStep.sent (C := C) (L := L) _ k (emitMsg e.ctx dtlsHtClientKeyExchange L.ckeBody false).2.transcript _ true
+          (show ({ view e with keys := some k, evs := .keys L.pub pk cr sr e.ctx.ems (emitMsg e.ctx dtlsHtClientKeyExchange L.ckeBody false).2.transcript k :: (view e).evs } : View).keys = some k from rfl) rfl
         exact (VSteps.one s1).step (by simpa [view, ok, h1, h2, h3] using s2)
 
 theorem handleMsg_vstep (C : Crypto) (L : Loc) (e : Ep) (t : Nat) (b raw : Bytes) :
@@ -225,8 +243,8 @@ theorem handleMsg_vstep (C : Crypto) (L : Loc) (e : Ep) (t : Nat) (b raw : Bytes
   all_goals first
     | exact handleClientHello_vstep ..
     | exact handleClientKeyExchange_vstep ..
-    | exact handleFinishedClient_vstep ..
-    | exact handleFinishedServer_vstep ..
+    | (apply handleFinishedClient_vstep; simp_all)
+    | (apply handleFinishedServer_vstep; simp_all)
     | exact handleHvr_vstep ..
     | exact handleServerHello_vstep ..
     | exact handleCertificate_vstep ..
@@ -267,11 +285,18 @@ theorem acceptMsg_vstep (C : Crypto) (L : Loc) (e : Ep) (m : HsMsg) :
           (by simpa [noteMsg, takeBuffer, appendFrag] using hb.2.1) (by simpa [noteMsg, takeBuffer, appendFrag] using hb.2.2.1)
           (by simpa [noteMsg, takeBuffer, appendFrag] using hb.2.2.2.1) (by simpa [noteMsg, takeBuffer, appendFrag] using hb.2.2.2.2),
           view_clearPostHvr] at h
-        exact h
+        split
+        · refine VSteps.of_eq ?_
+          rw [view_withCtx_same _ _ (by simp [takeBuffer, appendFrag]) (by simpa [takeBuffer, appendFrag] using hb.1)
+            (by simpa [takeBuffer, appendFrag] using hb.2.1) (by simpa [takeBuffer, appendFrag] using hb.2.2.1)
+            (by simpa [takeBuffer, appendFrag] using hb.2.2.2.1) (by simpa [takeBuffer, appendFrag] using hb.2.2.2.2), view_clearPostHvr]
+        · exact h
   · have h := handleMsg_vstep C L (withCtx (clearPostHvr e) (noteMsg (clearPostHvr e).ctx m.typ (rawOf m))) m.typ m.body (rawOf m)
     rw [view_withCtx_same _ _ (by simp) (by simp [noteMsg]) (by simp [noteMsg]) (by simp [noteMsg])
       (by simp [noteMsg]) (by simp [noteMsg]), view_clearPostHvr] at h
-    exact h
+    split
+    · exact VSteps.of_eq (view_clearPostHvr e)
+    · exact h
 
 theorem gate_vstep (C : Crypto) (L : Loc) (e : Ep) (a : Bool) (m : HsMsg) :
     VSteps C L (view e) (view (gate C L e a m).ep) := by
@@ -404,6 +429,14 @@ theorem VSteps.evs_mono {C : Crypto} {L : Loc} {a b : View} (s : VSteps C L a b)
   induction s with
   | refl => intro ev h; exact h
   | step _ s ih => intro ev h; exact s.evs_mono ev (ih ev h)
+
+theorem VStep.isClient_eq {C : Crypto} {L : Loc} {a b : View} (s : VStep C L a b) : b.isClient = a.isClient := by
+  cases s <;> rfl
+
+theorem VSteps.isClient_eq {C : Crypto} {L : Loc} {a b : View} (s : VSteps C L a b) : b.isClient = a.isClient := by
+  induction s with
+  | refl => rfl
+  | step _ s ih => exact s.isClient_eq.trans ih
 
 theorem onPacket_vstep (A : DecFn) (C : Crypto) (L : Loc) (e : Ep) (bs : Bytes) :
     VSteps C L (view e) (view (onPacket A C L e bs).1) := by
